@@ -4,7 +4,9 @@ other exit uses a one-shot body (exact hint); (R2) on streamed exits the
 Content-Length value, the length-checking stream's budget and end-start of the
 range handed to Entity::get_range are one term; (R3) the length-checking
 stream's decision table (fits -> pass the same chunk and subtract exactly its
-length; too long / too short -> error, never data or a clean end); (R4-R6) the
+length; too long / too short -> error, never data or a clean end), and the
+layers above it (`Body::poll_frame`, the stream enum) poll the wrapped stream
+once per poll and hand its answer on unchanged; (R4-R6) the
 multipart length is the checked sum of exactly the pieces the multipart stream
 later emits, each subtracted once.  Does not decide: that a foreign entity's
 chunks have the length Buf::remaining reports; hyper's framing."""
@@ -22,6 +24,7 @@ def run(ctx):
     SM.c01_single_source(ctx, M)
     BR.exactlen_table(ctx, "C01.R3")
     BR.exactlen_ctor_passthrough(ctx, "C01.R3.ctor")
+    BR.layers_transparent(ctx, "C01.R3.layers")
     MP.length_sum(ctx, "C01.R4")
     MP.stream_accounting(ctx, "C01.R5")
     MP.correspondence(ctx, "C01.R6")
